@@ -277,7 +277,7 @@ Definition eff_fudge (t : tsig) : N := if k_fudge t =? 0 then default_fudge else
 (* the RFC 8945 4.3 layout, written out *)
 Definition rfc_request_mac (rm : bytes) : bytes := if lenN rm =? 0 then [] else u16 (lenN rm) ++ rm.
 Definition rfc_variables (t : tsig) (time fudge : N) : bytes :=
-  wire_name (canon (k_name t)) ++ u16 255 ++ u32 (k_ttl t) ++ wire_name (canon (k_alg t)) ++
+  wire_name (canon (k_name t)) ++ u16 (k_class t) ++ u32 (k_ttl t) ++ wire_name (canon (k_alg t)) ++
   u48 time ++ u16 fudge ++ u16 (k_error t) ++ u16 (k_otherlen t) ++ k_other t.
 Definition rfc_timers (time fudge : N) : bytes := u48 time ++ u16 fudge.
 
@@ -789,16 +789,18 @@ Section Delimit.
     hdr_ok h1 -> hdr_ok h2 -> wf_body chk h1 b1 -> wf_body chk h2 b2 ->
     valid_wire (canon (k_name t1)) = true -> valid_wire (canon (k_name t2)) = true ->
     valid_wire (canon (k_alg t1)) = true -> valid_wire (canon (k_alg t2)) = true ->
+    k_class t1 < 65536 -> k_class t2 < 65536 ->
     k_ttl t1 < 4294967296 -> k_ttl t2 < 4294967296 ->
     ti1 < 281474976710656 -> ti2 < 281474976710656 -> f1 < 65536 -> f2 < 65536 ->
     k_error t1 < 65536 -> k_error t2 < 65536 -> k_otherlen t1 < 65536 -> k_otherlen t2 < 65536 ->
     rfc_request_mac rm ++ (hdr_wire h1 ++ b1) ++ rfc_variables t1 ti1 f1 =
     rfc_request_mac rm ++ (hdr_wire h2 ++ b2) ++ rfc_variables t2 ti2 f2 ->
-    h1 = h2 /\ b1 = b2 /\ canon (k_name t1) = canon (k_name t2) /\ k_ttl t1 = k_ttl t2 /\
+    h1 = h2 /\ b1 = b2 /\ canon (k_name t1) = canon (k_name t2) /\ k_class t1 = k_class t2 /\
+    k_ttl t1 = k_ttl t2 /\
     canon (k_alg t1) = canon (k_alg t2) /\ ti1 = ti2 /\ f1 = f2 /\ k_error t1 = k_error t2 /\
     k_otherlen t1 = k_otherlen t2 /\ k_other t1 = k_other t2.
   Proof.
-    intros Hh1 Hh2 W1 W2 Vn1 Vn2 Va1 Va2 Bt1 Bt2 Bi1 Bi2 Bf1 Bf2 Be1 Be2 Bo1 Bo2 H.
+    intros Hh1 Hh2 W1 W2 Vn1 Vn2 Va1 Va2 Bc1 Bc2 Bt1 Bt2 Bi1 Bi2 Bf1 Bf2 Be1 Be2 Bo1 Bo2 H.
     apply app_inv_head in H. rewrite <- !app_assoc in H.
     pose proof H as H0.
     apply app_eq_len_l in H0; [|reflexivity]. destruct H0 as [Eh _].
@@ -806,7 +808,7 @@ Section Delimit.
     apply (wf_body_delimits h1 (hdr_wire h1)) in H; try assumption; [|reflexivity].
     destruct H as [Eb Ev]. unfold rfc_variables in Ev.
     apply wire_name_prefix_free in Ev; try assumption. destruct Ev as [En Ev].
-    apply app_inv_head in Ev.
+    apply app_eq_len_l in Ev; [|reflexivity]. destruct Ev as [Ecl Ev].
     apply app_eq_len_l in Ev; [|reflexivity]. destruct Ev as [Ettl Ev].
     apply wire_name_prefix_free in Ev; try assumption. destruct Ev as [Ea Ev].
     apply app_eq_len_l in Ev; [|reflexivity]. destruct Ev as [Eti Ev].
@@ -814,7 +816,7 @@ Section Delimit.
     apply app_eq_len_l in Ev; [|reflexivity]. destruct Ev as [Ee Ev].
     apply app_eq_len_l in Ev; [|reflexivity]. destruct Ev as [Eol Eo].
     apply u32_inj in Ettl; try assumption. apply u48_inj in Eti; try assumption.
-    apply u16_inj in Ef, Ee, Eol; try assumption.
+    apply u16_inj in Ef, Ee, Eol, Ecl; try assumption.
     repeat split; assumption.
   Qed.
 End Delimit.
